@@ -56,6 +56,19 @@ def hash_uses(body, types):
     return out
 
 
+HASHING_TRAITS = ("std::hash::Hash", "core::hash::Hash", "std::hash::BuildHasher", "core::hash::BuildHasher", "std::hash::Hasher", "core::hash::Hasher")
+
+
+def explicit_hashing(body):
+    """Calls that compute a hash value explicitly (not the hashing std does inside its own maps)."""
+    out = []
+    for bb, t in body.normal_calls():
+        c = Callee(t["func"])
+        if c.trait in HASHING_TRAITS or c.name in ("hash_one", "build_hasher", "with_seeds") or "DefaultHasher" in c.path or (c.crate == "ahash" and c.name in ("new", "with_seed", "with_seeds", "generate_with", "hash_one")):
+            out.append((bb, c))
+    return out
+
+
 def marked_calls(body, marks):
     out = []
     for bb, t in body.normal_calls():
